@@ -97,9 +97,153 @@ func genHandleGet(root *pkgSrc) {
 			closedMark = false
 		}
 	}
+	// atomic steps: (a) registration = lookup of the session's entry, cancel of the stream found, store of the new entry in
+	// ONE exclusive critical section of the table lock; (b) exit = "is the entry still mine?" and the delete in ONE exclusive
+	// critical section. (Split in two, two racing re-opens can both survive / an old exit can evict a newer stream.)
+	storeAtomic, exitAtomic := false, false
+	if fd, _ := root.funcDecl("httpServerHandler.handleGet"); fd != nil {
+		type ev struct {
+			pos  token.Pos
+			kind string // Lock RLock Unlock RUnlock lookup cancel store cmp delete wait
+		}
+		var evs []ev
+		ast.Inspect(fd.Body, func(n ast.Node) bool {
+			switch x := n.(type) {
+			case *ast.FuncLit:
+				return false // deferred closures run at another time
+			case *ast.CallExpr:
+				if sel, ok := x.Fun.(*ast.SelectorExpr); ok {
+					if root.text(sel.X) == "h.getSSEConnectionsLock" {
+						evs = append(evs, ev{x.Pos(), sel.Sel.Name})
+					}
+					if sel.Sel.Name == "cancelFunc" && !strings.HasPrefix(root.text(sel.X), "conn") {
+						evs = append(evs, ev{x.Pos(), "cancel"})
+					}
+				}
+				if id, ok := x.Fun.(*ast.Ident); ok && id.Name == "delete" && len(x.Args) == 2 && root.text(x.Args[0]) == "h.getSSEConnections" {
+					evs = append(evs, ev{x.Pos(), "delete"})
+				}
+			case *ast.AssignStmt:
+				for _, l := range x.Lhs {
+					if ix, ok := l.(*ast.IndexExpr); ok && root.text(ix.X) == "h.getSSEConnections" {
+						evs = append(evs, ev{x.Pos(), "store"})
+					}
+				}
+				for _, r := range x.Rhs {
+					if ix, ok := r.(*ast.IndexExpr); ok && root.text(ix.X) == "h.getSSEConnections" {
+						evs = append(evs, ev{r.Pos(), "lookup"})
+					}
+				}
+			case *ast.BinaryExpr:
+				if x.Op == token.EQL && (root.text(x.Y) == "conn" || root.text(x.X) == "conn") {
+					evs = append(evs, ev{x.Pos(), "cmp"})
+				}
+			case *ast.UnaryExpr:
+				if x.Op == token.ARROW && strings.Contains(root.text(x), "connCtx.Done()") {
+					evs = append(evs, ev{x.Pos(), "wait"})
+				}
+			}
+			return true
+		})
+		for i := range evs {
+			for j := i + 1; j < len(evs); j++ {
+				if evs[j].pos < evs[i].pos {
+					evs[i], evs[j] = evs[j], evs[i]
+				}
+			}
+		}
+		// walk: which critical section (index of its Lock, exclusive or not) each event lies in
+		type where struct {
+			sec  int
+			excl bool
+		}
+		in := map[string][]where{}
+		sec, held, excl, waited := 0, false, false, false
+		for _, e := range evs {
+			switch e.kind {
+			case "Lock", "RLock":
+				sec++
+				held, excl = true, e.kind == "Lock"
+			case "Unlock", "RUnlock":
+				held = false
+			case "wait":
+				waited = true
+			default:
+				k := e.kind
+				if waited {
+					k = "exit:" + k
+				}
+				w := where{sec: 0}
+				if held {
+					w = where{sec, excl}
+				}
+				in[k] = append(in[k], w)
+			}
+		}
+		same := func(kinds ...string) bool {
+			s := -1
+			for _, k := range kinds {
+				if len(in[k]) == 0 {
+					return false
+				}
+				for _, w := range in[k] {
+					if w.sec == 0 || !w.excl {
+						return false
+					}
+					if s == -1 {
+						s = w.sec
+					}
+					if w.sec != s {
+						return false
+					}
+				}
+			}
+			return true
+		}
+		storeAtomic = same("lookup", "cancel", "store")
+		exitAtomic = len(in["exit:delete"]) == 0 || same("exit:lookup", "exit:cmp", "exit:delete")
+	}
+	// client side (streamable_client.go establishGetSSE): the previous stream's context is cancelled and the new one
+	// installed under the slot's mutex, and the reader goroutine it starts never cancels or replaces the SHARED slot's
+	// context (a newer stream may own the slot by the time an old reader exits): only its own captured ctx/cancel.
+	clientReplaceLocked, clientExitOwnOnly := false, false
+	if fd, _ := root.funcDecl("streamableHTTPClientTransport.establishGetSSE"); fd != nil {
+		src := root.text(fd)
+		l := strings.Index(src, "t.getSSEConn.mutex.Lock()")
+		d := strings.Index(src, "defer t.getSSEConn.mutex.Unlock()")
+		cOld := strings.Index(src, "t.getSSEConn.cancel()")
+		st := strings.Index(src, "t.getSSEConn.cancel = ")
+		g := strings.Index(src, "go func()")
+		clientReplaceLocked = l >= 0 && d > l && cOld > d && st > cOld && g > st
+		clientExitOwnOnly = g >= 0
+		ast.Inspect(fd.Body, func(n ast.Node) bool {
+			gs, ok := n.(*ast.GoStmt)
+			if !ok {
+				return true
+			}
+			ast.Inspect(gs.Call, func(m ast.Node) bool {
+				switch x := m.(type) {
+				case *ast.CallExpr:
+					if t := root.text(x.Fun); t == "t.getSSEConn.cancel" {
+						clientExitOwnOnly = false
+					}
+				case *ast.AssignStmt:
+					for _, lh := range x.Lhs {
+						if t := root.text(lh); t == "t.getSSEConn.ctx" || t == "t.getSSEConn.cancel" {
+							clientExitOwnOnly = false
+						}
+					}
+				}
+				return true
+			})
+			return false
+		})
+	}
 	var b strings.Builder
 	b.WriteString(header)
 	b.WriteString("import Mcp.Model.Streams\nnamespace Mcp.Gen\n")
+	fmt.Fprintf(&b, "/-- client `establishGetSSE`: the old stream is cancelled and the new one installed under the slot mutex; the reader goroutine's exit cancels / replaces nothing of the shared slot. -/\ndef clientGetReplaceLocked : Bool := %s\ndef clientGetExitOwnOnly : Bool := %s\n", leanBool(clientReplaceLocked), leanBool(clientExitOwnOnly))
+	fmt.Fprintf(&b, "/-- `handleGet`: the registration (lookup, cancel of the stream found, store) is one exclusive critical section of the table lock; so is the exit (identity check and delete). -/\ndef handleGetStoreAtomic : Bool := %s\ndef handleGetExitAtomic : Bool := %s\n", leanBool(storeAtomic), leanBool(exitAtomic))
 	fmt.Fprintf(&b, "/-- `handleGet`: (headers flushed before the table store, exit path removes the entry only if it is its own, exit marks the connection closed for writers). -/\ndef handleGetFacts : Mcp.Streams.Facts := ⟨%s, %s, %s⟩\n", leanBool(flushBeforeStore), leanBool(identity), leanBool(closedMark))
 	b.WriteString("end Mcp.Gen\n")
 	writeIfChanged("HandleGet.lean", b.String())
